@@ -109,9 +109,9 @@ mutual
 end
 
 /-- `parseExpr` = `parseBinaryExpr(lhs, token.LowestPrec+1)`; the whole input must be consumed.
-    Fuel: every call consumes fuel 1 and at most 3 nested calls happen per token. -/
+    Fuel: `6 * size t` suffices for a tree `t` (Proofs/ParseExpr.lean `roundtrip_aux`) and `size t ≤` number of tokens. -/
 def parseExpr (ts : List Tok) : Option Expr :=
-  match parseBinary T (4 * ts.length + 4) 1 ts with
+  match parseBinary T (6 * ts.length + 6) 1 ts with
   | some (x, []) => some x
   | _ => none
 
